@@ -306,3 +306,32 @@ package gabi
 //@   loop 0 invariant fresh(ms) && len(ms) == len(attributes) + 1 && (forall j in 0..len(ms) :: (in(b.mUser, j) && seen(j) ==> ms[j] != nil && fresh(ms[j]) && msg.MIssuer[j] != nil && val(ms[j]) == val(msg.MIssuer[j]) + val(b.mUser[j])) && (!(in(b.mUser, j) && seen(j)) ==> ms[j] == old(ite(j == 0, b.secret, attributes[j - 1]))))
 //@   loop 0 modifies elems(ms), onlyfresh("BV")
 //@   mustfail canary: err != nil
+
+//@ # ---- keyshare protocol, server side (C14) ----
+//@ global bigOne != nil && val(bigOne) == 1
+//@ # kshash names the digest of the user's challenge input (SHA-256 over its CBOR encoding) as a function of the slice handed in
+//@ declare kshash/1
+//@ func keyshareUserCommitmentsHash
+//@   property C14
+//@   trusted fxamacker/cbor.Marshal (reflection) is external; the digest is an uninterpreted function of the argument
+//@   ensures digest: err == nil ==> result0 != nil && fresh(result0) && bytes(result0) == kshash(ref(i))
+//@   ensures fail: err != nil ==> result0 == nil
+//@   modifies nothing
+
+//@ pred ksinput(x, keys) := x.Value != nil && x.Commitment != nil && (x.KeyID != nil ==> in(keys, deref(x.KeyID)) && keys[deref(x.KeyID)] != nil) && forall c in 0..len(x.OtherCommitments) :: x.OtherCommitments[c] != nil
+//@ func KeyshareResponse
+//@   property C14
+//@   safety
+//@   requires secret != nil && randomizer != nil && val(randomizer) >= 0 && forall k in dom(keys) :: keys[k] != nil ==> wfpk(keys[k])
+//@   ensures fail: err != nil ==> result0 == nil
+//@   ensures ok: err == nil ==> result0 != nil && result0.C != nil && result0.SResponse != nil
+//@   ensures bound: err == nil ==> bytes(commRequest.HashedUserCommitments) == kshash(ref(responseRequest.UserChallengeInput))
+//@   ensures response: err == nil ==> responseRequest.UserResponse != nil && val(result0.SResponse) == val(randomizer) + prod(val(result0.C), val(secret)) + val(responseRequest.UserResponse)
+//@   ensures complete: err == nil ==> responseRequest.Nonce != nil && forall i in 0..len(responseRequest.UserChallengeInput) :: ksinput(responseRequest.UserChallengeInput[i], keys)
+//@   assert at createChallenge args: $1 == responseRequest.Nonce && $3 == responseRequest.IsSignatureSession && ($0 == responseRequest.Context || (responseRequest.Context == nil && $0 == bigOne)) && len($2) >= 2 * len(responseRequest.UserChallengeInput)
+//@   loop 0 invariant 0 <= $i && $i <= len(responseRequest.UserChallengeInput) && forall j in 0..$i :: ksinput(responseRequest.UserChallengeInput[j], keys)
+//@   loop 1 invariant 0 <= i && i < len(responseRequest.UserChallengeInput) && (forall j in 0..i :: ksinput(responseRequest.UserChallengeInput[j], keys)) && responseRequest.UserChallengeInput[i].Value != nil && responseRequest.UserChallengeInput[i].Commitment != nil && (responseRequest.UserChallengeInput[i].KeyID != nil ==> in(keys, deref(responseRequest.UserChallengeInput[i].KeyID)) && keys[deref(responseRequest.UserChallengeInput[i].KeyID)] != nil)
+//@   loop 1 invariant 0 <= $i && $i <= len(responseRequest.UserChallengeInput[i].OtherCommitments) && forall c in 0..$i :: responseRequest.UserChallengeInput[i].OtherCommitments[c] != nil
+//@   loop 2 invariant 0 <= $i && $i <= len(responseRequest.UserChallengeInput) && fresh(challengeContribs) && len(challengeContribs) >= 2 * $i && forall j in 0..len(challengeContribs) :: challengeContribs[j] != nil
+//@   loop 2 modifies elems(challengeContribs), onlyfresh("BV")
+//@   mustfail canary: err != nil
